@@ -511,7 +511,7 @@ func (g *Gen) enterLoop(li *loopInfo, h Heap, preds []*ssa.BasicBlock, conds []s
 	}
 	if li.spec != nil {
 		for _, c := range li.spec.Invariants {
-			g.assumeClause(envHead, c, "true")
+			g.assumeClause(envHead, c, guard)
 		}
 		if li.spec.Decreases != nil {
 			v, err := envHead.eval(li.spec.Decreases.Expr)
@@ -536,7 +536,7 @@ func (g *Gen) enterLoop(li *loopInfo, h Heap, preds []*ssa.BasicBlock, conds []s
 		}
 		o := g.oblige("auto-init", c.id, c.id, guard, c.expr(phiEntry, h), b.Instrs[0].Pos())
 		o.Clause = "auto"
-		g.S.assert(c.expr(phiHead, hh))
+		g.S.assert(imp(guard, c.expr(phiHead, hh)))
 		g.candInv[b] = append(g.candInv[b], c)
 	}
 	g.assumeStructInvsIfHavoc(li, hh)
@@ -682,7 +682,7 @@ func (g *Gen) autoCandidates(li *loopInfo, entryVals map[*ssa.Phi]Val) []autoCan
 		}
 	}
 	// frame candidates: a component havocked by the loop is unchanged on every object that existed at function entry
-	if g.FC != nil && g.FC.HasAssign && g.mode.Contracts {
+	if ((g.FC != nil && g.FC.HasAssign) || (g.FT != nil && g.FT.HasAssign)) && g.mode.Contracts {
 		al := g.initSym(g.allocComp())
 		var cs []string
 		for c := range li.havoc {
